@@ -806,7 +806,24 @@ func (o Obj) Doc() M {
 			if api == "" {
 				api = "v1"
 			}
-			md["ownerReferences"] = []M{{"apiVersion": api, "kind": p.OwnerKind, "name": p.OwnerName, "uid": "u-" + p.OwnerName, "controller": true}}
+			ctl := M{"apiVersion": api, "kind": p.OwnerKind, "name": p.OwnerName, "uid": "u-" + p.OwnerName, "controller": true}
+			// rendering only (the analysis reads the controller reference alone): further, non-controlling owners around it
+			other := M{"apiVersion": "scheduling.x-k8s.io/v1alpha1", "kind": "PodGroup", "name": "pg-" + p.OwnerName, "uid": "u-pg"}
+			switch strHash(p.NS+"/"+p.Name) % 5 {
+			case 0:
+				md["ownerReferences"] = []M{other, ctl}
+			case 1:
+				other["controller"] = false
+				md["ownerReferences"] = []M{other, ctl, other}
+			case 2:
+				md["ownerReferences"] = []M{ctl, other}
+			default:
+				md["ownerReferences"] = []M{ctl}
+			}
+		} else if strHash(p.NS+"/"+p.Name)%4 == 0 {
+			// owners, none of them a controller: a stand-alone pod
+			md["ownerReferences"] = []M{{"apiVersion": "v1", "kind": "ConfigMap", "name": "cm-" + p.Name, "uid": "u-cm", "controller": false},
+				{"apiVersion": "batch/v1", "kind": "Job", "name": "j-" + p.Name, "uid": "u-j"}}
 		}
 		return M{"apiVersion": "v1", "kind": "Pod", "metadata": md, "spec": jPodSpec(p.Ports),
 			"status": M{"hostIP": p.HostIP, "podIPs": []M{{"ip": "10.244.0.5"}}}}
@@ -964,4 +981,14 @@ func (w *World) WriteDir(dir string, assignment []int, extra map[string]string) 
 		}
 	}
 	return nil
+}
+
+// strHash: FNV-1a, for rendering choices that must be a function of the object (never of a PRNG or a map order)
+func strHash(x string) uint32 {
+	h := uint32(2166136261)
+	for i := 0; i < len(x); i++ {
+		h ^= uint32(x[i])
+		h *= 16777619
+	}
+	return h
 }
